@@ -25,6 +25,8 @@ func rateScenario(c *Ctx, in map[string]string) {
 			s.Steps = append(s.Steps, Step{Op: "timedcall", Arg: "Message", Args: []string{"#chan", strings.TrimSpace(strings.Repeat(fmt.Sprintf("long message %d word ", i), 12))}})
 		case "msg":
 			s.Steps = append(s.Steps, Step{Op: "timedcall", Arg: "Message", Args: []string{"#chan", fmt.Sprintf("message number %d %s", i, strings.Repeat("x", i%7*5))}})
+		case "umsg": // multi-byte text: the cost is per BYTE on the wire
+			s.Steps = append(s.Steps, Step{Op: "timedcall", Arg: "Message", Args: []string{"#chan", fmt.Sprintf("%d ", i) + strings.Repeat("日本語テキスト", 12)}})
 		case "who":
 			s.Steps = append(s.Steps, Step{Op: "timedcall", Arg: "Who", Args: []string{fmt.Sprintf("nick%d", i)}})
 		case "join":
@@ -93,7 +95,7 @@ func rateScenario(c *Ctx, in map[string]string) {
 	want := []string{}
 	for _, k := range kinds {
 		switch k {
-		case "msg", "longmsg":
+		case "msg", "longmsg", "umsg":
 			want = append(want, "PRIVMSG")
 		case "who":
 			want = append(want, "WHO")
@@ -112,12 +114,64 @@ func rateScenario(c *Ctx, in map[string]string) {
 	}
 }
 
-func init() { runners["ratescenario"] = rateScenario }
+// joinBurst: lines the client writes ON ITS OWN in answer to server traffic go through the same limiter: a dozen users
+// joining at once (a netsplit healing) make the tracker ask WHO for each; those lines must respect the bucket too.
+func joinBurst(c *Ctx, in map[string]string) {
+	hin := hexIn(in)
+	s := &Session{Cfg: SessCfg{Nick: "me", User: "me", AllowFlood: false}}
+	s.Steps = append(s.Steps, Step{Op: "recv", Arg: ":srv 001 me :Welcome"}, Step{Op: "barrier"}, Step{Op: "marklines"})
+	var n int
+	fmt.Sscan(in["joins"], &n)
+	for i := 0; i < n; i++ {
+		s.Steps = append(s.Steps, Step{Op: "recv", Arg: fmt.Sprintf(":user%d!u@h JOIN #big", i)})
+	}
+	res := c.RunSession(s2withCollect(s, n))
+	if res.Crashed || res.Wedged {
+		c.R.Mismatch("rate.joinburst_session", hin, fmt.Sprintf("crashed=%v wedged=%v", res.Crashed, res.Wedged), "")
+		return
+	}
+	type ln struct {
+		arr  float64
+		size int
+		text string
+	}
+	var lines []ln
+	for i, t := range res.Timings {
+		if t[1] == -4 && strings.HasPrefix(res.TimedLines[i], "WHO ") {
+			lines = append(lines, ln{t[2], int(t[3]), res.TimedLines[i]})
+		}
+	}
+	if len(lines) < n {
+		c.R.Mismatch("rate.joinburst_lines", hin, fmt.Sprintf("%d WHO lines for %d joins", len(lines), n), "")
+		return
+	}
+	cost := func(l ln) float64 { return 1000 + 10*float64(l.size) } // ms
+	// every window of consecutive lines: cost written <= allowance + elapsed (+ one event and scheduling slack)
+	for i := 0; i < len(lines); i++ {
+		sum := 0.0
+		for j := i + 1; j < len(lines); j++ {
+			sum += cost(lines[j])
+			if sum > 8000+(lines[j].arr-lines[i].arr)+cost(lines[j])+150 {
+				c.R.Violation("rate.window_exceeded", hin, fmt.Sprintf("lines %d..%d: %.0f ms of cost written within %.0f ms", i+1, j, sum, lines[j].arr-lines[i].arr),
+					"<= 8000 ms + elapsed", "the client's own WHO queries for a burst of JOINs left faster than the flood limiter allows (allowance 8 s of cost, then one event per its cost)")
+				return
+			}
+		}
+	}
+	c.R.Count("joinburst/"+in["joins"], true, "timing-joinburst")
+}
+
+func s2withCollect(s *Session, n int) *Session {
+	s.Steps = append(s.Steps, Step{Op: "collectarrivals", Arg: fmt.Sprint(n)})
+	return s
+}
+
+func init() { runners["ratescenario"] = rateScenario; runners["joinburst"] = joinBurst }
 
 func runC16Timing(c *Ctx) {
 	r := c.R
 	scen := []map[string]string{
-		{"kinds": "msg,who,join,msg,who,notice,who,who,msg,ping,who,pong,join,who"},
+		{"kinds": "msg,who,join,msg,who,notice,who,umsg,msg,ping,umsg,pong,join,who"},
 		{"kinds": "msg,who,longmsg,ping,longmsg"},
 		{"kinds": "longidle,msg,msg,msg,msg,msg,msg,msg"},
 		{"allowflood": "1", "kinds": "msg,who,join,msg,who,notice,who,who,msg,ping,who,who,msg,who,msg,msg"},
@@ -128,6 +182,8 @@ func runC16Timing(c *Ctx) {
 			map[string]string{"kinds": "msg,msg,msg,msg,msg,msg,msg,idle,msg,msg,ping,msg,msg"},
 			map[string]string{"kinds": "join,notice,join,notice,join,notice,join,notice,join,pong,notice,join"})
 	}
+	c.run("joinburst", map[string]string{"joins": "11"})
+	r.Traces++
 	for _, in := range scen {
 		c.run("ratescenario", in)
 		r.Count("rate:"+in["kinds"]+in["allowflood"], true, "timing-scenario")
